@@ -9,14 +9,16 @@ STUBS = ['_dispatch_calloc', 'calloc', 'malloc', 'realloc', 'free', '_os_object_
 ICALL = ['_dispatch_data_dispose', '_dispatch_xref_dispose', '_dispatch_dispose', '___dispatch_data_flatten_block_invoke', '___dispatch_transform_*_block_invoke*', '_dispatch_transform_from_base32', '_dispatch_transform_to_base32',
          '_dispatch_transform_from_base32hex', '_dispatch_transform_to_base32hex', '_dispatch_transform_from_base64', '_dispatch_transform_to_base64', '_dispatch_transform_from_utf16le', '_dispatch_transform_to_utf16le', '_dispatch_transform_from_utf16be', '_dispatch_transform_to_utf16be', '_dispatch_transform_to_utf8_without_bom']
 FN = {0: 'base32', 1: 'base32hex', 2: 'base64', 3: 'utf16le', 4: 'utf16be'}
-def TR(mode, fmt, n, split=0, split2=0, tiers=('quick', 'thorough'), timeout=900, text=None, symmask=0):
-    return H('TR_%s_%s_n%d%s%s%s' % ({0: 'dec', 1: 'rt', 2: 'enc', 3: 'utf', 4: 'decv'}[mode], FN[fmt], n, ('_s%d' % split) if split else '', ('_r%d' % split2) if split2 else '', ('_%s_m%x' % (text.replace('=', '-'), symmask)) if text else ''), 'h_tr.c', ENT, stubs=STUBS, icall_only=ICALL,
-             noglobal=['_dispatch_queue_attrs', '_dispatch_mgr_q', '_dispatch_root_queues', '_dispatch_pthread_root_queue_contexts'], nt=1, heap=7936, pagewords=64, defines=['-DMODE=%d' % mode, '-DFMT=%d' % fmt, '-DN=%d' % n, '-DSPLIT=%d' % split, '-DSPLIT2=%d' % split2] + (['-DTEXT="%s"' % text, '-DSYMMASK=%d' % symmask] if text else []), probes=ST_PROBES,
-             unwind=30, timeout=timeout, tiers=tiers, mem_gb=20, paths=(mode in (0, 3, 4)), mode=('stop' if mode in (0, 3, 4) else 'all'), witness=('twin' if mode in (0, 3, 4) else 'inline'), witness_any=True,
-             note='%s %s, %d symbolic input bytes%s%s' % ({0: 'decode of arbitrary text from', 1: 'round trip through', 2: 'real encoder vs reference decoder,', 3: 'well-formed UTF-8 round trip through', 4: 'real decoder vs reference decoder on a valid text%s of' % ((' "%s" (symbolic alphabet characters at mask 0x%x)' % (text, symmask)) if text else '')}[mode], FN[fmt], n, (', input split after %d bytes' % split) if split else '', (', encoded text split after %d characters' % split2) if split2 else ''))
+def TR(mode, fmt, n, split=0, split2=0, tiers=('quick', 'thorough'), timeout=900, text=None, symmask=0, splitb=0, cname=None):
+    return H('TR_%s_%s_n%d%s%s%s' % ({0: 'dec', 1: 'rt', 2: 'enc', 3: 'utf', 4: 'decv', 5: 'utfv'}[mode], FN[fmt], n, ('_s%d' % split) if split else '', ('_r%d' % split2) if split2 else '', ('_%s_m%x' % (cname or text.replace('=', '-'), symmask)) if text else '') + (('_b%d' % splitb) if splitb else ''), 'h_tr.c', ENT, stubs=STUBS, icall_only=ICALL,
+             noglobal=['_dispatch_queue_attrs', '_dispatch_mgr_q', '_dispatch_root_queues', '_dispatch_pthread_root_queue_contexts'], nt=1, heap=7936, pagewords=64, defines=['-DMODE=%d' % mode, '-DFMT=%d' % fmt, '-DN=%d' % n, '-DSPLIT=%d' % split, '-DSPLIT2=%d' % split2] + (['-DTEXT="%s"' % text, '-DSYMMASK=%d' % symmask] if text else []) + (['-DSPLITB=%d' % splitb] if splitb else []), probes=ST_PROBES,
+             unwind=30, timeout=timeout, tiers=tiers, mem_gb=20, paths=(mode in (0, 3, 4, 5)), mode=('stop' if mode in (0, 3, 4, 5) else 'all'), witness=('twin' if mode in (0, 3, 4, 5) else 'inline'), witness_any=True,
+             note='%s %s, %d symbolic input bytes%s%s' % ({0: 'decode of arbitrary text from', 1: 'round trip through', 2: 'real encoder vs reference decoder,', 3: 'well-formed UTF-8 round trip through', 5: 'UTF-8 text with symbolic continuation bytes round trip through', 4: 'real decoder vs reference decoder on a valid text%s of' % ((' "%s" (symbolic alphabet characters at mask 0x%x)' % (text, symmask)) if text else '')}[mode], FN[fmt], n, (', input split after %d bytes' % split) if split else '', (', encoded text split after %d characters' % split2) if split2 else ''))
 HARNESSES = [TR(0, f, 1) for f in (0, 2)] + [TR(0, 1, 1, tiers=('thorough',))] + [TR(0, f, 2, tiers=('thorough',), timeout=3000) for f in (0, 1, 2)]
 HARNESSES += [TR(2, f, n, split=sp) for f in (0, 1, 2) for n in (1, 2, 3, 5) for sp in ((0, 1) if n > 1 else (0,))] + [TR(2, f, n, split=sp, tiers=('thorough',)) for f in (0, 1, 2) for n in (4, 6) for sp in (0, 2, 3)]
 HARNESSES += [TR(0, 2, 4, split=2, tiers=('thorough',), timeout=3000)]
+# MODE 5 (UTF-8 text with concrete lead bytes and ONE symbolic continuation byte, whole model heap mirrored byte by byte so that the concrete bytes of every stage stay constants): NOT registered -
+# measured: 329 paths explored, then cbmc runs out of 20 GB after 12 min for the 4-byte text 'a' + U+20AC split after 2 bytes.  Together with MODE 3 this closes the UTF clause as out of reach.
 # MODE 4: the real decoder on VALID texts (whole groups incl. every RFC 4648 padding length), two adjacent characters symbolic over the whole alphabet, text unsplit and split between them
 VT = {0: ['MZXW6YTB', 'MY======', 'MZXQ====', 'MZXW6===', 'MZXW6YQ='], 1: ['CPNMUOJ1', 'CO======', 'CPNG====', 'CPNMU===', 'CPNMUOG='], 2: ['Zm9v', 'Zg==', 'Zm8=']}
 def _decv():
